@@ -503,6 +503,7 @@ class _Session:
         pre = self.tree_id(fresh=False)
         was = self.st
         self.base = pre
+        randomness.RNG.seed(RNG_SEED)   # as in start(): RandomHOMStrategy shuffles with the global RNG
         try:
             if self.route == "ctl":
                 n = self.controller.mutant_count()
